@@ -136,6 +136,9 @@ enum TransientSourceState<T> {
     Register(T),
     /// The source needs to be disabled but kept.
     Disable(T),
+    /// The source has been disabled (unregistered) on its own request and is
+    /// kept, unregistered, until the next `register()`.
+    Disabled(T),
     /// The source needs to be removed from the loop.
     Remove(T),
     /// The source is being replaced by another. For most API purposes (eg.
@@ -180,6 +183,7 @@ impl<T> TransientSourceState<T> {
             | Self::Register(source)
             | Self::Remove(source)
             | Self::Disable(source)
+            | Self::Disabled(source)
             | Self::Replace { new: source, .. } => replacer(source),
             Self::None => return,
         };
@@ -197,6 +201,7 @@ impl<T> TransientSource<T> {
             TransientSourceState::Keep(source)
             | TransientSourceState::Register(source)
             | TransientSourceState::Disable(source)
+            | TransientSourceState::Disabled(source)
             | TransientSourceState::Replace { new: source, .. } => Some(f(source)),
             TransientSourceState::Remove(_) | TransientSourceState::None => None,
         }
@@ -215,6 +220,11 @@ impl<T> TransientSource<T> {
     /// your own event source's `process_events()`, and the source will be
     /// unregistered as needed after it exits.
     pub fn remove(&mut self) {
+        if let TransientSourceState::Disabled(_) = self.state {
+            // Already unregistered: nothing left to do but drop it.
+            self.state = TransientSourceState::None;
+            return;
+        }
         self.state.replace_state(TransientSourceState::Remove);
     }
 
@@ -229,6 +239,12 @@ impl<T> TransientSource<T> {
     /// your own event source's `process_events()`, and the sources will be
     /// registered and unregistered as needed after it exits.
     pub fn replace(&mut self, new: T) {
+        if let TransientSourceState::Disabled(_) = self.state {
+            // The old source is already unregistered: drop it, the new one
+            // only needs to be registered.
+            self.state = TransientSourceState::Register(new);
+            return;
+        }
         self.state
             .replace_state(|old| TransientSourceState::Replace { new, old });
     }
@@ -304,6 +320,7 @@ impl<T: crate::EventSource> crate::EventSource for TransientSource<T> {
             }
             TransientSourceState::Register(source)
             | TransientSourceState::Disable(source)
+            | TransientSourceState::Disabled(source)
             | TransientSourceState::Replace { new: source, .. } => {
                 source.register(poll, token_factory)?;
                 self.state.replace_state(TransientSourceState::Keep);
@@ -330,7 +347,9 @@ impl<T: crate::EventSource> crate::EventSource for TransientSource<T> {
             }
             TransientSourceState::Disable(source) => {
                 source.unregister(poll)?;
+                self.state.replace_state(TransientSourceState::Disabled);
             }
+            TransientSourceState::Disabled(_) => (),
             TransientSourceState::Remove(source) => {
                 source.unregister(poll)?;
                 self.state.replace_state(|_| TransientSourceState::None);
@@ -348,9 +367,14 @@ impl<T: crate::EventSource> crate::EventSource for TransientSource<T> {
 
     fn unregister(&mut self, poll: &mut crate::Poll) -> crate::Result<()> {
         match &mut self.state {
-            TransientSourceState::Keep(source)
-            | TransientSourceState::Register(source)
-            | TransientSourceState::Disable(source) => source.unregister(poll)?,
+            TransientSourceState::Keep(source) | TransientSourceState::Register(source) => {
+                source.unregister(poll)?
+            }
+            TransientSourceState::Disable(source) => {
+                source.unregister(poll)?;
+                self.state.replace_state(TransientSourceState::Disabled);
+            }
+            TransientSourceState::Disabled(_) => (),
             TransientSourceState::Remove(source) => {
                 source.unregister(poll)?;
                 self.state.replace_state(|_| TransientSourceState::None);
